@@ -18,13 +18,15 @@ import OllamaVerif.Proofs.GgufCreate
 import OllamaVerif.Proofs.GgufSteps
 import OllamaVerif.Proofs.GgufWeight
 import OllamaVerif.Proofs.GgufApi
+import OllamaVerif.Proofs.GgufBytes
 
 namespace OllamaVerif.C10
 open OllamaVerif OllamaVerif.Gguf
 
 /-- Full-strength statement for the hardened decoder: for every byte string, every
-    `maxArraySize`, every budget of at least 16 bytes per input byte. -/
-theorem decode_safe_hardened (bs : Bytes) (maxArraySize : Int) (B : Nat) (hB : 16 * bs.length ≤ B) :
+    `maxArraySize`, every per-allocation budget of at least ONE byte per input byte (tightened in round 7 from 16: with
+    the validations on, every size the decoder still allocates in one piece is bounded by the input that is left). -/
+theorem decode_safe_hardened (bs : Bytes) (maxArraySize : Int) (B : Nat) (hB : bs.length ≤ B) :
     Safe (decode bs maxArraySize (some B) Guards.all) :=
   decode_safe_all bs maxArraySize B hB
 
@@ -32,12 +34,12 @@ theorem decode_safe_hardened (bs : Bytes) (maxArraySize : Int) (B : Nat) (hB : 1
     correspondence checks against /repo on every run): for every byte string the decoder model
     ends in `ok` or an error that is neither a panic nor an over-budget allocation.
     Termination for every input holds by construction (total structural recursion). -/
-theorem decode_safe_tree (bs : Bytes) (maxArraySize : Int) (B : Nat) (hB : 16 * bs.length ≤ B) :
+theorem decode_safe_tree (bs : Bytes) (maxArraySize : Int) (B : Nat) (hB : bs.length ≤ B) :
     Safe (decode bs maxArraySize (some B)) :=
   decode_safe_all bs maxArraySize B hB
 
 /-- Partial statement for the pinned decoder: safe wherever it agrees with the hardened one. -/
-theorem decode_safe_partial (bs : Bytes) (maxArraySize : Int) (B : Nat) (hB : 16 * bs.length ≤ B)
+theorem decode_safe_partial (bs : Bytes) (maxArraySize : Int) (B : Nat) (hB : bs.length ≤ B)
     (hagree : decode bs maxArraySize (some B) Guards.pinned = decode bs maxArraySize (some B) Guards.all) :
     Safe (decode bs maxArraySize (some B) Guards.pinned) := by
   rw [hagree]; exact decode_safe_all bs maxArraySize B hB
@@ -85,7 +87,7 @@ theorem witness_end_before_start :
 
 /-- non-vacuity of `decode_safe_partial`: a well-formed file meets its hypotheses -/
 def wGood : Bytes := [71, 71, 85, 70, 3, 0, 0, 0, 0, 0, 0, 0, 0, 0, 0, 0, 0, 0, 0, 0, 0, 0, 0, 0]
-example : 16 * wGood.length ≤ budget ∧
+example : wGood.length ≤ budget ∧
     decode wGood 0 (some budget) Guards.pinned = decode wGood 0 (some budget) Guards.all ∧
     (decode wGood 0 (some budget)).isOk = true := ⟨by decide, by rfl, by decide⟩
 
@@ -95,20 +97,36 @@ example : 16 * wGood.length ≤ budget ∧
   is READ FROM THE FILE (up to 2^64).  `decodeFromT` is `decodeFrom` with an iteration counter on every loop. -/
 
 /-- **The decoder is total, fast and frugal on EVERY byte string**: with the working tree's validations, every
-    `maxArraySize` and a budget of 16 bytes per input byte,
+    `maxArraySize` and a per-allocation budget of one byte per input byte,
     * the instrumented decoder is the decoder (the counter is an annotation),
     * it executes at most `len + 1` loop iterations (array elements, key/values, dimensions, tensor infos, seeks),
       whatever counts the file declares,
     * it ends in a value or an error that is neither a panic nor an allocation above the budget,
     * a returned value retains at most `len + 24` bytes / cells (keys, strings, array cells, names, dimensions;
-      24 = the `general.parameter_count` entry the decoder adds). -/
-theorem decode_total_tree (bs : Bytes) (maxArraySize : Int) (B : Nat) (hB : 16 * bs.length ≤ B) :
+      24 = the `general.parameter_count` entry the decoder adds), i.e. at most `128·len + 3072` BYTES of Go memory with the
+      sizes of string headers, interface words, boxed scalars, map slots and tensor structs made explicit
+      (`Decoded.goBytes`, Proofs/GgufBytes.lean). -/
+theorem decode_total_tree (bs : Bytes) (maxArraySize : Int) (B : Nat) (hB : bs.length ≤ B) :
     (decodeFromT ⟨bs, 0⟩ maxArraySize (some B) Guards.tree).1 = decode bs maxArraySize (some B) ∧
     (decodeFromT ⟨bs, 0⟩ maxArraySize (some B) Guards.tree).2 ≤ bs.length + 1 ∧
     Safe (decode bs maxArraySize (some B)) ∧
-    ∀ d, decode bs maxArraySize (some B) = .ok d → d.weight ≤ bs.length + 24 :=
+    ∀ d, decode bs maxArraySize (some B) = .ok d → d.weight ≤ bs.length + 24 ∧ d.goBytes ≤ 128 * bs.length + 3072 :=
   ⟨decodeFromT_fst _ _ _ _, decodeFromT_steps _ _ _ _, decode_safe_all bs maxArraySize B hB,
-   fun d h => decodeFrom_weight ⟨bs, 0⟩ maxArraySize (some B) Guards.tree d h⟩
+   fun d h => ⟨decodeFrom_weight ⟨bs, 0⟩ maxArraySize (some B) Guards.tree d h,
+               decodeFrom_goBytes ⟨bs, 0⟩ maxArraySize (some B) Guards.tree d h⟩⟩
+
+/-- the allocation half of `Safe` is not empty: the SAME 32-byte file (a key length of 2^40) makes upstream's decoder ask for
+    1 TiB in one piece under any budget below that, and is answered with io.EOF by the tree under a budget of 0 -/
+theorem alloc_clause_bites :
+    failsWith (decode wStrHuge 0 (some 1099511627775) Guards.pinned) (.alloc "string" 1099511627776) = true ∧
+    failsWith (decode wStrHuge 0 (some 0)) .eof = true := by decide
+
+/-- **Progress** (restated from Proofs/GgufCreate.lean; the L2 monitor `end-not-after-start` is its run-time twin): a decode
+    that succeeds from file position `p` ends at least 4 bytes later — what makes create's `for offset < size` loop advance —
+    for every decoder variant that rejects tensor sizes ≥ 2^63. -/
+theorem decode_progress (r : Rd) (maxArraySize : Int) (budget : Option Nat) (d : Decoded)
+    (h : decodeFrom r maxArraySize budget Guards.tree = .ok d) : r.pos + 4 ≤ d.endOffset :=
+  decodeFrom_progress r maxArraySize budget Guards.tree rfl d h
 
 /-- the two bounds do not depend on the validations: upstream's pinned decoder, when it does not panic, is as fast
     and as frugal (its defects are the panics, the single huge `make`s and create's loop, not its own loops) -/
@@ -143,7 +161,7 @@ theorem create_terminates_tree (bs : Bytes) (budget : Option Nat) (maxSeek : Nat
 
 /-- **create is safe on every upload**: no panic site, no allocation above the budget, however many
     models the upload holds and wherever it is cut -/
-theorem create_safe_tree (bs : Bytes) (B : Nat) (hB : 16 * bs.length ≤ B) (maxSeek : Nat) :
+theorem create_safe_tree (bs : Bytes) (B : Nat) (hB : bs.length ≤ B) (maxSeek : Nat) :
     SafeL (ggufLayers bs (some B) Guards.tree maxSeek) :=
   ggufLayers_safe bs B hB maxSeek
 
@@ -161,7 +179,7 @@ theorem create_upload_terminates_tree (bs : Bytes) (budget : Option Nat) (maxSee
   rw [show Guards.tree = Guards.all from rfl, createUpload_eq_ggufLayers]
   exact ggufLayers_terminates bs budget Guards.all rfl maxSeek
 
-theorem create_upload_safe_tree (bs : Bytes) (B : Nat) (hB : 16 * bs.length ≤ B) (maxSeek : Nat) :
+theorem create_upload_safe_tree (bs : Bytes) (B : Nat) (hB : bs.length ≤ B) (maxSeek : Nat) :
     SafeL (createUpload bs (some B) Guards.tree maxSeek) := by
   rw [show Guards.tree = Guards.all from rfl, createUpload_eq_ggufLayers]
   exact ggufLayers_safe bs B hB maxSeek
@@ -188,13 +206,13 @@ example : (createUpload wArchType (some budget)).map (fun r => r.toOption.map (f
 /-- **`POST /api/create {"from": m}`** (`server/model.go parseFromModel` decodes every model layer of the installed model,
     `createModel` reads the metadata through the typed accessors): for every list of blobs, no panic site and no
     allocation above the budget — the request ends in success or an error answer -/
-theorem create_from_safe_tree (blobs : List Bytes) (B : Nat) (hB : ∀ b ∈ blobs, 16 * b.length ≤ B) :
+theorem create_from_safe_tree (blobs : List Bytes) (B : Nat) (hB : ∀ b ∈ blobs, b.length ≤ B) :
     Safe (createFrom blobs (some B) Guards.tree) :=
   createFrom_safe blobs B hB
 
 /-- **`POST /api/show`** (`Model.Capabilities`: decode with the default array limit, failure tolerated, architecture-
     prefixed look-ups; `getModelData`: decode without array limit when verbose): safe on every blob -/
-theorem show_safe_tree (blob : Bytes) (verbose : Bool) (B : Nat) (hB : 16 * blob.length ≤ B) :
+theorem show_safe_tree (blob : Bytes) (verbose : Bool) (B : Nat) (hB : blob.length ≤ B) :
     Safe (showModel blob verbose (some B) Guards.tree) :=
   showModel_safe blob verbose B hB
 
@@ -248,8 +266,9 @@ theorem witness_pinned_create_never_answers :
     rw [if_neg (by decide)]
     exact loop_stuck wNegSeek (some budget) Guards.pinned _ d 0 (by decide) h hend hm _ _
 
-/-- … and the working tree's decoder rejects that file -/
-example : (ggufLayers wNegSeek (some budget)).map (fun r => match r with | .error e => some e | .ok _ => none)
+/-- … and the working tree's decoder rejects that file: create answers with an error -/
+theorem tree_rejects_negative_seek_file :
+    (ggufLayers wNegSeek (some budget)).map (fun r => match r with | .error e => some e | .ok _ => none)
     = some (some (.invalid "tensor size")) := by decide
 
 /-- non-vacuity: two header-only models back to back give two layers of 24 bytes each, a trailing
